@@ -1209,6 +1209,11 @@ class WebSocketProtocol13(WebSocketProtocol):
                 # can't start new message until the old one is finished
                 self._abort()
                 return
+            if opcode not in (0x1, 0x2):
+                # reserved non-control opcode: fail now rather than when
+                # (if ever) the final fragment arrives
+                self._abort()
+                return
             if not is_final_frame:
                 self._fragmented_message_opcode = opcode
                 self._fragmented_message_buffer = bytearray(data)
